@@ -9,6 +9,12 @@ pub mod m5 { average::define_moments!(M5, 5); }
 pub mod m6 { average::define_moments!(M6, 6); }
 pub mod m8 { average::define_moments!(M8, 8); }
 pub mod m10 { average::define_moments!(M10, 10); }
+pub mod m7 { average::define_moments!(M7, 7); }
+pub mod m9 { average::define_moments!(M9, 9); }
+pub mod m12 { average::define_moments!(M12, 12); }
+pub use m12::M12;
+pub use m7::M7;
+pub use m9::M9;
 pub use m10::M10;
 pub use m4::M4;
 pub use m5::M5;
@@ -20,6 +26,22 @@ average::define_histogram!(h2, 2);
 average::define_histogram!(h3, 3);
 average::define_histogram!(h4, 4);
 average::define_histogram!(h100, 100);
+average::define_histogram!(h5, 5);
+average::define_histogram!(h7, 7);
+average::define_histogram!(h8, 8);
+average::define_histogram!(h16, 16);
+average::define_histogram!(h17, 17);
+average::define_histogram!(h25, 25);
+average::define_histogram!(h64, 64);
+average::define_histogram!(h255, 255);
+pub use h16::Histogram as H16;
+pub use h17::Histogram as H17;
+pub use h25::Histogram as H25;
+pub use h255::Histogram as H255;
+pub use h5::Histogram as H5;
+pub use h64::Histogram as H64;
+pub use h7::Histogram as H7;
+pub use h8::Histogram as H8;
 pub use average::Histogram10 as H10;
 pub use h1::Histogram as H1;
 pub use h100::Histogram as H100;
@@ -62,10 +84,15 @@ pub trait Est: Clone + std::fmt::Debug + Default {
     fn extend_lazy(&mut self, v: &[f64], kind: usize);
     fn headline(&self) -> Option<(String, f64)> { None }
     fn estimate(&self) -> Option<f64> { None }
+    /// `from_value(x)` where the type has it (Min, Max)
+    fn from_value(_x: f64) -> Option<Self> { None }
+    /// a copy that went through serialisation and back (None when the state cannot be written as JSON)
+    fn roundtrip(&self) -> Option<Self>;
 }
 
 macro_rules! ingest_impl {
     () => {
+        fn roundtrip(&self) -> Option<Self> { serde_json::to_string(self).ok().and_then(|js| serde_json::from_str(&js).ok()) }
         fn from_iter_val(v: &[f64]) -> Self { v.iter().cloned().collect() }
         fn from_iter_ref(v: &[f64]) -> Self { v.iter().collect() }
         fn extend_val(&mut self, v: &[f64]) { self.extend(v.iter().cloned()) }
@@ -157,8 +184,8 @@ impl Est for average::Kurtosis {
     fn estimate(&self) -> Option<f64> { Some(Estimate::estimate(self)) }
 }
 
-pub const CM_STATS: [&str; 11] = ["cm0", "cm1", "cm2", "cm3", "cm4", "cm5", "cm6", "cm7", "cm8", "cm9", "cm10"];
-pub const SM_STATS: [&str; 11] = ["sm0", "sm1", "sm2", "sm3", "sm4", "sm5", "sm6", "sm7", "sm8", "sm9", "sm10"];
+pub const CM_STATS: [&str; 13] = ["cm0", "cm1", "cm2", "cm3", "cm4", "cm5", "cm6", "cm7", "cm8", "cm9", "cm10", "cm11", "cm12"];
+pub const SM_STATS: [&str; 13] = ["sm0", "sm1", "sm2", "sm3", "sm4", "sm5", "sm6", "sm7", "sm8", "sm9", "sm10", "sm11", "sm12"];
 
 macro_rules! moments_impl {
     ($t:ty, $name:expr, $n:expr) => {
@@ -190,6 +217,9 @@ moments_impl!(M5, "M5", 5);
 moments_impl!(M6, "M6", 6);
 moments_impl!(M8, "M8", 8);
 moments_impl!(M10, "M10", 10);
+moments_impl!(M7, "M7", 7);
+moments_impl!(M9, "M9", 9);
+moments_impl!(M12, "M12", 12);
 // the crate's own instantiation
 impl Est for average::Moments4 {
     const NAME: &'static str = "M4";
@@ -223,6 +253,7 @@ impl Est for average::Min {
         vec![acc("min", "min", Val::F(self.min())), acc("estimate", "", Val::F(Estimate::estimate(self)))]
     }
     ingest_impl!();
+    fn from_value(x: f64) -> Option<Self> { Some(average::Min::from_value(x)) }
     fn headline(&self) -> Option<(String, f64)> { Some(("min".into(), self.min())) }
     fn estimate(&self) -> Option<f64> { Some(Estimate::estimate(self)) }
 }
@@ -243,6 +274,8 @@ impl Est for average::Max {
     fn extend_ref(&mut self, v: &[f64]) { for x in v { Estimate::add(self, *x) } }
     fn from_iter_lazy(v: &[f64]) -> Self { v.iter().cloned().filter(|_| true).collect() }
     fn extend_lazy(&mut self, v: &[f64], _kind: usize) { for x in v { Estimate::add(self, *x) } }
+    fn roundtrip(&self) -> Option<Self> { serde_json::to_string(self).ok().and_then(|js| serde_json::from_str(&js).ok()) }
+    fn from_value(x: f64) -> Option<Self> { Some(average::Max::from_value(x)) }
     fn headline(&self) -> Option<(String, f64)> { Some(("max".into(), self.max())) }
     fn estimate(&self) -> Option<f64> { Some(Estimate::estimate(self)) }
 }
